@@ -408,7 +408,13 @@ func runC14(c *core.Ctx) {
 		}
 		switch i % 6 {
 		case 0:
-			try("key length does not match its type", func(x *rm.LeaseSet2) { x.Keys[0].Data = r.Bytes(len(x.Keys[0].Data) + 1 + r.Pick(8)) })
+			try("key length does not match its type", func(x *rm.LeaseSet2) {
+				for len(x.Keys) < 3 {
+					x.Keys = append(x.Keys, rm.EncKey{Type: 4, Data: r.Bytes(32)})
+				}
+				k := r.Pick(len(x.Keys)) // the defective key is not always the first one
+				x.Keys[k].Data = r.Bytes(len(x.Keys[k].Data) + 1 + r.Pick(8))
+			})
 		case 1:
 			try("reserved flag bits set", func(x *rm.LeaseSet2) { x.Flags |= uint16(1) << uint(3+r.Pick(13)) })
 		case 2:
